@@ -430,7 +430,11 @@ HARNESSES = [
             budget={'quick': {'max_paths': 4000, 'wall_s': 400, 'query_timeout_ms': 20000},
                     'thorough': {'max_paths': 20000, 'wall_s': 1500}}),
     Harness('cylinder-exit-points', h_cyl_exit, _mods, encodes=_enc, twins=('swapped',),
-            cases={'quick': [{'zero': z} for z in ((0, 2),)],
+            cases={'quick': [{'zero': z} for z in ((0, 2),)] +
+                   # tracks inside the y-z / x-z plane (the code's direction[0]==0 branch and its
+                   # mirror), one sign pattern each in the quick tier
+                   [{'zero': (0,), 'signs': (1, 1, -1)}, {'zero': (0,), 'signs': (1, -1, 1)},
+                    {'zero': (1,), 'signs': (1, 1, -1)}],
                    'thorough': [{'zero': z} for z in ((0,), (0, 2), (2,), (1,), (1, 2))]},
             budget={'quick': {'max_paths': 2000, 'wall_s': 150, 'query_timeout_ms': 20000},
                     'thorough': {'max_paths': 8000, 'wall_s': 1500, 'query_timeout_ms': 60000}},
@@ -447,6 +451,18 @@ HARNESSES = [
             budget={'quick': {'max_paths': 200}, 'thorough': {'max_paths': 500}}),
 ]
 
+def _list_harness():
+    """ListGenerator (C12's harness): the k-th draw is events[(k-1) mod n] when looping,
+    StopIteration exactly from draw n+1 otherwise, count = draws + the offset a user assigned
+    to `count` (symbolic integer): cycling/stopping never depends on the assigned count"""
+    from harness import C12
+    h = [x for x in C12.HARNESSES if x.name == 'list-generator'][0]
+    return Harness('list-generator', h.fn, h.modules, cases=h.cases, twins=h.twins,
+                   encodes=h.encodes, budget=h.budget, doc=_list_harness.__doc__)
+
+
+HARNESSES.append(_list_harness())
+
 BOUNDS = {
     'quick': {'volume dimensions': 'symbolic (vertex/direction harness); fixed 200x300x100 box '
               'and r=100,h=50 cylinder for the exit points', 'vertex': 'anywhere in the closed '
@@ -458,7 +474,7 @@ BOUNDS = {
                  'zero-classes'},
 }
 OUTSIDE = ["statistical quality and independence of numpy's generator (the stub's contract)",
-           "FileGenerator/ListGenerator (C12)", "cross sections behind "
+           "FileGenerator (C12)", "cross sections behind "
            "total_interaction_length (C14)", "slant depth (C15)"]
 ASSUMPTIONS = ["np.random.* return independent variates uniform on [0,1): only the support is "
                "used; 'uniform in volume/solid angle' is stated as push-forward identities"]
